@@ -51,6 +51,37 @@ theorem C14_loads_range (bs : Bytes) (v : Value) (hb : BytesOK bs) (h : loads bs
     intsInRange v = true :=
   loads_range bs v hb h
 
+/-- smallest-format selection: the encoder's output is no longer than ANY legal encoding of the
+    value, except that a float is always written as float64 (9 bytes) where the specification also
+    allows float32 (5 bytes): at most 4 bytes of slack per float contained in the value -/
+theorem C14_minimal (v : Value) (bs : Bytes) (he : Encodes v bs) (h : wf v = true) :
+    ∃ ds, dumps v = .ok ds ∧ ds.length ≤ bs.length + 4 * floatCount v :=
+  dumps_minimal v bs he h
+
+/-- in particular, for values without floats the encoder emits a shortest legal encoding -/
+theorem C14_minimal_nofloat (v : Value) (bs : Bytes) (he : Encodes v bs) (h : wf v = true)
+    (hf : floatCount v = 0) : ∃ ds, dumps v = .ok ds ∧ ds.length ≤ bs.length := by
+  simpa [hf] using dumps_minimal v bs he h
+
+/-- on a byte string the decoder can only fail with one of its six documented exceptions -/
+theorem C14_loads_errors (bs : Bytes) (hb : BytesOK bs) (e : Err) (h : loads bs = .error e) :
+    e = .insufficient ∨ e = .invalidString ∨ e = .reserved ∨ e = .unhashable ∨ e = .duplicate ∨
+      e = .typeError :=
+  (decErr_iff e).mp (loads_errors bs hb e h)
+
+/-- i.e. the "logic error" branches (and `struct.error`, `UnsupportedTypeException`) are
+    unreachable through the dispatch table -/
+theorem C14_loads_no_logic (bs : Bytes) (hb : BytesOK bs) :
+    loads bs ≠ .error .logic ∧ loads bs ≠ .error .structError ∧ loads bs ≠ .error .unsupported := by
+  refine ⟨fun h => ?_, fun h => ?_, fun h => ?_⟩ <;>
+    simpa [decErr] using loads_errors bs hb _ h
+
+/-- the encoder succeeds or raises `UnsupportedTypeException`; it never raises `struct.error`
+    (every `struct.pack` argument is put in range by the guard of its branch) -/
+theorem C14_dumps_errors (v : Value) :
+    (∃ bs, dumps v = .ok bs) ∨ dumps v = .error .unsupported :=
+  dumps_errors v
+
 /-! non-vacuity: a nested value with a tuple key, a float key and an ext satisfies `wf` -/
 example : wf (.map [(.tup [.int 1, .str [0x61]], .arr [.nil, .float 0x3ff8000000000000]),
                     (.int (-(2:Int)^63), .ext 5 [1,2,3]),
@@ -85,5 +116,20 @@ example : BytesOK [0x91, 0xcd, 0, 1] ∧ loads [0x91, 0xcd, 0, 1] = .ok (.arr [.
 
 -- `C14_range`: both sides of the disjunction are inhabited
 example : (-(2 : Int) ^ 63 - 1 < -(2 : Int) ^ 63) ∧ ((2 : Int) ^ 64 ≤ (2 : Int) ^ 64) := by decide
+
+-- `C14_minimal`: the float term is needed — float32 is a legal, strictly shorter encoding
+example : ∃ v bs, Encodes v bs ∧ wf v = true ∧ floatCount v = 1 ∧
+    ∃ ds, dumps v = .ok ds ∧ ds.length = bs.length + 4 :=
+  ⟨.float (f32to64 (beVal [0, 0, 0, 0])), 0xca :: [0, 0, 0, 0],
+    Encodes.float32 [0, 0, 0, 0] rfl (by decide), by decide, by simp [floatCount],
+    _, rfl, by simp [beBytes_length]⟩
+
+-- `C14_loads_errors`: the decoder does fail on some byte strings
+example : BytesOK [] ∧ loads [] = .error .insufficient :=
+  ⟨by decide, by unfold loads; rw [show ([] : Bytes).length + 1 = 0 + 1 from rfl, unpack_nil]; rfl⟩
+
+-- `C14_dumps_errors`: both outcomes occur
+example : dumps .nil = .ok [0xc0] ∧ dumps .opaque = .error .unsupported := by
+  simp [dumps, pack]
 
 end SuppModel.Props.C14
